@@ -315,7 +315,10 @@ def r_binding(ctx, model):
     mg = ev.get_attr(calc, "mode_gamma")
     fa = ev.get_attr(calc, "freq_array")
     from ..sym import Tup
-    got = [sp.simplify(as_sym(x)) for x in mg.items] if isinstance(mg, Tup) else None
+    try:
+        got = [sp.simplify(as_sym(x)) for x in ev.iterate(mg)]       # a list, a tuple or a NamedTuple: indexed alike by every consumer
+    except AnalysisError:
+        got = None
     ctx.check(got == [VDR, GAMMA, GAMMA ** 2], "Calculator.mode_gamma = [V dgamma/dV, gamma, gamma^2]", w,
               expected="[VDR, GAMMA, GAMMA**2]", found=str(got),
               explanation="the list every consumer indexes as [V dgamma/dV, gamma, gamma^2] is built in another order "
